@@ -30,6 +30,11 @@ def selfSyms (s : Snap) (n1 : Node) : List Perm :=
 /-- `Group::add` for each of them, starting from the trivial group on `F` -/
 def addAll (g : Grp.G) (ps : List Perm) : Grp.G := ps.foldl (fun g p => (Grp.addSet g [p]).1) g
 
+/-- every permutation handed to `Group::add` is a permutation of the class slots (the check `ProvenPerm::check` makes in the
+`checks` build) -/
+def permsOK (F : List Nat) (ps : List Perm) : Bool :=
+  ps.all fun g => wfb g && isBijection g && keys g == F && sameSet (valuesVec g) F
+
 /-- the state after `alloc_eclass` -/
 def allocClass (s : Snap) (F : List Nat) (syn : Node) (data : String) : Snap :=
   { s with uf := s.uf ++ [{ id := s.uf.length, m := identity F }],
@@ -62,6 +67,9 @@ def addNew (s : Snap) (n : Node) (f2o : SlotMap) (syn : Node) (data : String) : 
           (match lookupShape s1 sh2 bij2 with
            | some _ => none
            | none =>
+             -- a self-symmetry that is not a permutation of the class slots would be a redundancy witness
+             -- (`determine_self_symmetries` then shrinks the class through `union`): outside the modelled path
+             if !(permsOK F (selfSyms s1 n1)) then none else
              let g := addAll (Grp.mk (identity F) []) (selfSyms s1 n1)
              some (setNew s1 i (sh2, bij2) (Grp.generators g), { id := i, m := f2o }))
         | _, _ => none
